@@ -41,7 +41,46 @@ def bounds(tier):
             "max_points_per_firing": MAX_POINTS, "interpretations_monitored": ["eager", "normalize", "lazy", "sequential", "unfold", "optimize"]}
 
 
+def extras():
+    """Terms aimed at rules the generic corpus does not reach (lazy Lambda indexing, Align, Independent, chained Subs)."""
+    T, N, V = gen.T, gen.N, gen.V
+    x, y = V("x", "real"), V("y", "real", (2,))
+    ti, tij, tj, tji2 = T("i", lid=401), T("ij", lid=402), T("j", lid=403), T("ji", (2,), lid=404)
+    idx = T("i", dtype=3, contents=[2, 0])
+    idx2 = T("k", dtype=2, contents=[1, 0])
+    lam1 = ("Lam", "j", 3, ("B", "mul", tij, x))
+    lam2 = ("Lam", "j", 3, ("B", "add", tji2, y))
+    lazy_terms = [("B", "mul", tij, x), ("B", "add", ("B", "mul", ti, x), tj), ("U", "exp", (), ("B", "mul", tij, x)), ("R", "add", ("B", "mul", tij, x), (("j", 3),))]
+    out = []
+    for lam in (lam1, lam2):
+        out += [("B", ("getitem", 0), lam, idx), ("B", ("getitem", 0), lam, N(1, 3)), ("B", ("getitem", 0), lam, V("f", 3)),
+                ("U", "getslice", ((0,),), lam), ("U", "getslice", ((("s", 1, None, None),),), lam), ("U", "getslice", (("...", 0),), lam),
+                ("U", "sum", (0, False), lam)]
+    out += [("B", ("getitem", 1), lam2, idx2), ("U", "getslice", ((("s", None, None, None), 1),), lam2)]
+    for f in lazy_terms:
+        t = lang.ty(f)
+        names = [n for n in t.inputs]
+        for perm in ((names[-1],), tuple(reversed(names)), tuple(names[1:] + names[:1])):
+            al = ("Al", f, perm)
+            out += [al, ("B", "add", al, ti), ("B", "mul", tj, al), ("B", "sub", al, ("Al", f, tuple(names))), ("R", "add", al, (("i", 2),))]
+    ind = ("Ind", ("B", "mul", T("k", lid=405), ("B", "mul", x, ti)), "r", "k", "x")
+    out += [ind, ("S", ind, (("r", T((), (2,), lid=406)),)), ("S", ind, (("r", V("q", "real", (2,))),))]
+    # substitution into a lazily built substitution (fusion rules)
+    inner = [("S", ("B", "mul", tij, x), (("i", V("f", 2)),)), ("S", ("B", "mul", tij, x), (("x", ("B", "add", V("w", "real"), N(1.0))),)),
+             ("S", tij, (("j", idx),))]
+    for f in inner:
+        tf = lang.ty(f)
+        for n in tf.inputs:
+            for v in gen.subst_values(n, tf.inputs[n], "quick")[:8]:
+                out.append(("S", f, ((n, v),)))
+    return [e for e in out if lang.well_typed(e)]
+
+
 def cases(tier):
+    return [["t", e] for e in extras()] + _corpus_cases(tier)
+
+
+def _corpus_cases(tier):
     terms = gen.corpus(tier, families=FAMS, depth=2, coarse=(True if tier == "thorough" else 2))
     sem = c08.expr_cases(tier)
     if tier != "thorough":
@@ -190,7 +229,21 @@ def _routes(e, seed):
             x = lang.build(e, seed, arrays)
         apply_optimizer(x)
 
-    return (("eager", eager), ("lazy", lazy), ("normalize", normalize), ("sequential", sequential), ("optimizer", optimizer))
+    def reflect_inner():
+        # the operand of a top-level substitution is built fully lazily, the substitution itself eagerly and lazily
+        if e[0] != "S":
+            return
+        with I.reflect:
+            f = lang.build(e[1], seed, arrays)
+        vals = {k: lang.build(v, seed, arrays) for k, v in e[2]}
+        f(**vals)
+        with I.lazy:
+            f(**vals)
+        with I.reflect:
+            r = f(**vals)
+        interpreter.reinterpret(r)
+
+    return (("eager", eager), ("lazy", lazy), ("normalize", normalize), ("sequential", sequential), ("optimizer", optimizer), ("reflect-inner", reflect_inner))
 
 
 def check(case, seed):
